@@ -565,7 +565,12 @@ class Macro(Element):
         """
         if self.counter is not None:
             self.ownerDocument.context.currentlabel = self
-            self.stepcounter(tex)
+            # Sectioning units deeper than the numbering depth are not
+            # numbered: like LaTeX, leave their counter alone
+            try: secnumdepth = self.config['document']['sec-num-depth']
+            except: secnumdepth = 10
+            if secnumdepth >= self.level or self.level > self.ENDSECTIONS_LEVEL:
+                self.stepcounter(tex)
 
     def postParse(self, tex):
         """
